@@ -278,6 +278,35 @@ pub fn c15(rep: &mut Report, rng: &mut Prng) {
                 expect!(rep, "MacsecHeader::set_payload_len|short_len_in_range", h.short_len.value() == want && enc == want && (!unmod || want != 1), "payload {} (unmodified: {}) -> short_len {} (encoded {}), expected {}", len, unmod, h.short_len.value(), enc, want);
             }
         }
+        // the four packet-level `vlan_ids()` copies: for every value of a tag's 16 bit control word
+        // the id is its low 12 bit - priority and drop-eligible bit never reach it
+        {
+            let inner = rng.u16();
+            let second = rng.bool();
+            let mut frame = vec![0u8; 12];
+            frame.extend_from_slice(&[0x81, 0x00, 0, 0, 0x81, 0x00, 0, 0, 0x08, 0x06]);
+            frame.extend_from_slice(&[0, 1, 8, 0, 6, 4, 0, 1]);
+            frame.extend_from_slice(&[0u8; 20]);
+            for tci in 0..=u16::MAX {
+                let (a, b) = if second { (inner, tci) } else { (tci, inner) };
+                frame[14..16].copy_from_slice(&a.to_be_bytes());
+                frame[18..20].copy_from_slice(&b.to_be_bytes());
+                let want = [a & 0x0fff, b & 0x0fff];
+                let got: [Option<Vec<u16>>; 4] = [
+                    SlicedPacket::from_ethernet(&frame).ok().map(|p| p.vlan_ids().iter().map(|v| v.value()).collect()),
+                    LaxSlicedPacket::from_ethernet(&frame).ok().map(|p| p.vlan_ids().iter().map(|v| v.value()).collect()),
+                    PacketHeaders::from_ethernet_slice(&frame).ok().map(|p| p.vlan_ids().iter().map(|v| v.value()).collect()),
+                    LaxPacketHeaders::from_ethernet(&frame).ok().map(|p| p.vlan_ids().iter().map(|v| v.value()).collect()),
+                ];
+                for (g, name) in got.iter().zip(["SlicedPacket", "LaxSlicedPacket", "PacketHeaders", "LaxPacketHeaders"]) {
+                    if g.as_deref() != Some(&want[..]) {
+                        rep.violation(&format!("api|{}::vlan_ids|low_12_bit_of_each_tag", name), format!("tags {:04x} {:04x}: {}::vlan_ids() = {:?}, expected {:?}", a, b, name, g, want), &frame);
+                        return;
+                    }
+                }
+            }
+            rep.add("api.c15.vlan_ids_tag_values", 65_536);
+        }
         // DSCP code points with a name (RFC 2474, 2597, 3246, 5865, 8622)
         let known: [u8; 23] = [0, 8, 16, 24, 32, 40, 48, 56, 10, 12, 14, 18, 20, 22, 26, 28, 30, 34, 36, 38, 46, 44, 1];
         for v in 0..64u8 {
